@@ -209,9 +209,65 @@ def empty(ad):
     return not ad['changed'] and not ad['deleted']
 
 
+def expression_index_probe(ctx):
+    """signatures whose Meta.indexes hold expression-only indexes (no fields), index objects with every optional part,
+    and constraints with conditions: empty difference with itself and with its clone (both directions, `==` too),
+    and a hinted evolution for a change elsewhere in the model resolves it"""
+    from django.db import models
+    from django.db.models import F, Q
+    from django.db.models.functions import Lower
+    from django_evolution.diff import Diff
+    from django_evolution.signature import (AppSignature, ConstraintSignature, FieldSignature, IndexSignature,
+                                            ModelSignature, ProjectSignature)
+
+    def build(age_indexed):
+        p = ProjectSignature()
+        a = AppSignature(app_id='vapp')
+        m = ModelSignature(model_name='Person', table_name='vapp_person')
+        m.add_field_sig(FieldSignature(field_name='id', field_type=models.AutoField, field_attrs={'primary_key': True}))
+        m.add_field_sig(FieldSignature(field_name='name', field_type=models.CharField, field_attrs={'max_length': 20}))
+        m.add_field_sig(FieldSignature(field_name='age', field_type=models.IntegerField,
+                                       field_attrs=({'db_index': True} if age_indexed else {})))
+        m.add_index(models.Index(Lower('name'), name='person_lower_name'))
+        m.add_index(models.Index(F('age') + 1, Lower('name').desc(), name='person_expr2'))
+        m.add_index(models.Index(fields=['name', '-age'], name='person_plain', condition=Q(age__gt=1), include=['id']))
+        m.add_index(models.Index(fields=['age']))
+        m.add_constraint(models.CheckConstraint(check=Q(age__gte=0) | Q(name=''), name='person_age_ok'))
+        m.add_constraint(models.UniqueConstraint(fields=['name'], condition=Q(age__lt=5), name='person_name_young'))
+        a.add_model_sig(m)
+        p.add_app_sig(a)
+        return p
+    old, new = build(False), build(True)
+    rep = {'scenario': 'expression-only indexes: self, clone and hinted evolution of a change elsewhere in the model'}
+    ctx.count('expression_index_probe')
+    ctx.case(rep, nontrivial=True, sample_cap=1)
+    for name, sig in (('old', old), ('new', new)):
+        for other_name, other in (('itself', sig), ('its clone', sig.clone()), ('a clone of its clone', sig.clone().clone())):
+            d1, d2 = Diff(sig, other), Diff(other, sig)
+            if not d1.is_empty() or not d2.is_empty():
+                ctx.fail(None, 'a signature with expression-only indexes has a non-empty difference with %s: %s'
+                         % (other_name, (str(d1) or str(d2))[:160]), rep)
+            elif not (sig == other and other == sig):
+                ctx.fail(None, 'a signature with expression-only indexes is not equal to %s although the difference is '
+                         'empty' % other_name, rep)
+    cur = old.clone()
+    hint = Diff(old, new).evolution().get('vapp', [])
+    try:
+        for mu in hint:
+            mu.run_simulation(app_label='vapp', project_sig=cur, database_state=None, database='default')
+    except Exception as e:
+        ctx.fail(None, 'the hinted evolution of a db_index change next to expression indexes is rejected: %s'
+                 % type(e).__name__, rep)
+        return
+    if not Diff(cur, new).is_empty() or not Diff(new, cur).is_empty() or not (cur == new):
+        ctx.fail(None, 'the hinted evolution %s leaves a residual difference next to expression-only indexes: %s'
+                 % ([m.generate_hint() for m in hint], str(Diff(cur, new))[:160]), rep)
+
+
 def run(ctx):
     evorig.setup()
     quick = ctx.tier == 'quick'
+    expression_index_probe(ctx)
     n = 1500 if quick else 20000
     ctx.rule = ('signature pairs (old, new): new is old evolved by 0-4 valid mutations (add/change/delete field, '
                 'ChangeMeta, DeleteModel) plus direct edits (re-targeted relation, default stated explicitly, '
